@@ -2,7 +2,7 @@
 from vf.core import *
 ROOTS = ['vf_sb_globals', 'vf_sb_conn_init', 'vf_sb_init', 'vf_sb_batchbuf_len', 'vf_sb_msg_init', 'vf_sb_msg_custom', 'vf_sb_msg_noinc',
          'vf_sb_msg_eob', 'vf_sb_msg_type', 'vf_fld_num', 'vf_fld_uint', 'vf_fld_bool', 'vf_fld_time', 'vf_fld_set_time',
-         'vf_sb_send_p', 'vf_sb_send_r', 'vf_sb_send_batch', 'vf_sb_vec_set', 'vf_sb_update_persist', 'vf_sb_recover', 'vf_sb_resend_request', 'vf_sb_retrans', 'vf_sb_rctx_init', 'vf_sb_rctx_nomore', 'vf_sb_get_next_send', 'vf_fld_set_int', 'vf_fld_int',
+         'vf_sb_send_p', 'vf_sb_send_r', 'vf_sb_send_batch', 'vf_sb_vec_set', 'vf_sb_update_persist', 'vf_sb_recover', 'vf_sb_process', 'vf_sb_throw_invalid', 'vf_sess_set_active', 'vf_sb_resend_request', 'vf_sb_retrans', 'vf_sb_rctx_init', 'vf_sb_rctx_nomore', 'vf_sb_get_next_send', 'vf_fld_set_int', 'vf_fld_int',
          # shims/sess_common.cpp
          'vf_sess_set_seq', 'vf_sess_set_state', 'vf_sess_set_ptrs', 'vf_sess_set_flags', 'vf_sess_set_sid', 'vf_sess_next_send', 'vf_sess_next_recv', 'vf_sess_state']
 PROVIDED = ['_ZN4FIX87Message7factoryERKNS_10F8MetaCntxERKNSt7__cxx1112basic_stringIcSt11char_traitsIcESaIcEEEbb', 'vf_rec_range', '_ZNK4FIX87Message6encodeEPPc', '_ZN4FIX811MessageBase6removeEt', 'vf_rec_put', 'vf_rec_putc', 'vf_rec_getc', 'vf_msg_is_admin']
